@@ -91,7 +91,7 @@ func vPayload(w *appstate.VWorld, t types.TxType) []byte {
 
 // vSetup: world, transaction, payload, config, fee floor, tx kind.
 func vSetup(t types.TxType) (*appstate.VWorld, *types.Transaction, *big.Int, TxType) {
-	w := appstate.VBuildWorld(state.VShape{Flips: t == types.DeleteFlipTx || t == types.SubmitFlipTx, Invitees: t == types.KillInviteeTx, Contracts: t == types.CallContractTx || t == types.DeployContractTx || t == types.TerminateContractTx})
+	w := appstate.VBuildWorld(state.VShape{Flips: t == types.DeleteFlipTx || t == types.SubmitFlipTx, Invitees: t == types.KillInviteeTx, InviteesOf: 3, Contracts: t == types.CallContractTx || t == types.DeployContractTx || t == types.TerminateContractTx})
 	tx := w.VBuildTx(t)
 	tx.Payload = vPayload(w, t)
 	// what the payload recovers to when it is read as a public key: an error, or symbolically one of
@@ -335,17 +335,17 @@ func H_C12a_SubmitFlipTx() { vValidateAny(types.SubmitFlipTx) }
 // satisfying the prefix post-condition, over an arbitrary world: returns a verdict, never panics.
 func H_C12a_SubmitAnswersHashTx() { vValidateAny(types.SubmitAnswersHashTx) }
 
-//verif:obligation C12.a.shortanswers tier=thorough use=world bounds=world(S,T,G,F),arbitrary-tx-fields,payload-absent|empty|garbage|arbitrary covers=accepted,rejected
+//verif:obligation C12.a.shortanswers tier=quick use=world bounds=world(S,T,G,F),arbitrary-tx-fields,payload-absent|empty|garbage|arbitrary covers=accepted,rejected
 // The per-type validator of SubmitShortAnswersTx on an arbitrary decoded transaction (every optional field nil or set)
 // satisfying the prefix post-condition, over an arbitrary world: returns a verdict, never panics.
 func H_C12a_SubmitShortAnswersTx() { vValidateAny(types.SubmitShortAnswersTx) }
 
-//verif:obligation C12.a.longanswers tier=thorough use=world bounds=world(S,T,G,F),arbitrary-tx-fields,payload-absent|empty|garbage|arbitrary covers=accepted,rejected
+//verif:obligation C12.a.longanswers tier=quick use=world,wvrf bounds=world(S,T,G,F),arbitrary-tx-fields,payload-absent|empty|garbage|arbitrary covers=accepted,rejected
 // The per-type validator of SubmitLongAnswersTx on an arbitrary decoded transaction (every optional field nil or set)
 // satisfying the prefix post-condition, over an arbitrary world: returns a verdict, never panics.
 func H_C12a_SubmitLongAnswersTx() { vValidateAny(types.SubmitLongAnswersTx) }
 
-//verif:obligation C12.a.evidence tier=thorough use=world bounds=world(S,T,G,F),arbitrary-tx-fields,payload-absent|empty|garbage|arbitrary covers=accepted,rejected
+//verif:obligation C12.a.evidence tier=quick use=world bounds=world(S,T,G,F),arbitrary-tx-fields,payload-absent|empty|garbage|arbitrary covers=accepted,rejected
 // The per-type validator of EvidenceTx on an arbitrary decoded transaction (every optional field nil or set)
 // satisfying the prefix post-condition, over an arbitrary world: returns a verdict, never panics.
 func H_C12a_EvidenceTx() { vValidateAny(types.EvidenceTx) }
@@ -395,7 +395,7 @@ func H_C12a_CallContractTx() { vValidateAny(types.CallContractTx) }
 // satisfying the prefix post-condition, over an arbitrary world: returns a verdict, never panics.
 func H_C12a_TerminateContractTx() { vValidateAny(types.TerminateContractTx) }
 
-//verif:obligation C12.a.delegate tier=thorough use=world bounds=world(S,T,G,F),arbitrary-tx-fields,payload-absent|empty|garbage|arbitrary covers=accepted,rejected
+//verif:obligation C12.a.delegate tier=quick use=world bounds=world(S,T,G,F),arbitrary-tx-fields,payload-absent|empty|garbage|arbitrary covers=accepted,rejected
 // The per-type validator of DelegateTx on an arbitrary decoded transaction (every optional field nil or set)
 // satisfying the prefix post-condition, over an arbitrary world: returns a verdict, never panics.
 func H_C12a_DelegateTx() { vValidateAny(types.DelegateTx) }
